@@ -259,7 +259,33 @@ func runC15(p *core.Prog, r *core.Result) {
 				}
 				for _, ret := range core.ReturnsOf(rd) {
 					nn, known := p.FactsAt(ret).ErrNonNil(errV)
-					if errV == nil || !known || nn {
+					if errV != nil && known && !nn {
+						continue
+					}
+					// or the error went through a helper that panics unless it is nil (check(err)) before the return
+					viaCheck := false
+					if errV != nil {
+						for _, ref := range *errV.Referrers() {
+							hc, isCall := ref.(*ssa.Call)
+							if !isCall || !core.Dominates(hc, ret) || len(hc.Call.Args) != 1 {
+								continue
+							}
+							h := core.Callee(hc)
+							if h == nil || !core.InModule(h) || h.Blocks == nil || h.Signature.Results().Len() != 0 {
+								continue
+							}
+							all := true
+							for _, hr := range core.ReturnsOf(h) {
+								if hnn, hknown := p.FactsAt(hr).ErrNonNil(h.Params[0]); !hknown || hnn {
+									all = false
+								}
+							}
+							if all {
+								viaCheck = true
+							}
+						}
+					}
+					if !viaCheck {
 						ok = false
 					}
 				}
